@@ -283,7 +283,7 @@ theorem init_inv_inclusive (cfg : Config) (r : Ref) (hr : r.id ≠ "") (hroot : 
   rw [hroot]
   refine ⟨⟨hr, ⟨by simp [DB.initLIB, DB.empty], by simp [DB.initLIB, DB.empty]⟩,
     ⟨by simp [DB.initLIB, DB.empty], by simp [DB.initLIB, DB.empty], by simp [DB.initLIB, DB.empty]⟩,
-    trivial, by simp, by simp, by simp, ?_, ?_, ?_⟩, ⟨?_, by simp [DB.initLIB, DB.empty], ?_, by simp [DB.initLIB, DB.empty], h1, h2⟩, rfl, rfl⟩
+    trivial, by simp, by simp, by simp, ?_, ?_, ?_, Or.inl rfl⟩, ⟨?_, by simp [DB.initLIB, DB.empty], ?_, by simp [DB.initLIB, DB.empty], h1, h2⟩, rfl, rfl⟩
   · intro _; exact ⟨rfl, by simp [DB.initLIB, DB.empty]⟩
   · intro c cs h; cases h
   · intro i n hin
@@ -315,7 +315,7 @@ theorem init_inv (cfg : Config) (r : Ref) (hr : r.id ≠ "") (hroot : cfg.root =
   rw [hroot]
   refine ⟨hr, ⟨by simp [DB.initLIB, DB.empty], by simp [DB.initLIB, DB.empty]⟩,
     ⟨by simp [DB.initLIB, DB.empty], by simp [DB.initLIB, DB.empty], by simp [DB.initLIB, DB.empty]⟩,
-    trivial, by simp, by simp, by simp, ?_, ?_, ?_⟩
+    trivial, by simp, by simp, by simp, ?_, ?_, ?_, Or.inr rfl⟩
   · intro _; exact ⟨rfl, by simp [DB.initLIB, DB.empty]⟩
   · intro c cs h; cases h
   · intro i n hin
